@@ -52,6 +52,7 @@ type Ctx struct {
 	layoutMemo     *[2]bool // result of the layout evaluation (computed once per loaded tree)
 	escMemo        *bool
 	lcMemo         *bool
+	fsMemo         map[string]bool
 }
 
 // LoadOpts selects the build configuration and an optional overlay.
